@@ -57,7 +57,8 @@ def md_tree(rng, depth):
     for _ in range(rng.randint(1, 4)):
         k = rng.choice(["k", "note", "ünï", "α β", "n", "arr", "f", "sub", "type", "q" * 40, "x.y", "rate%2Fhz", "50%2F50", "%", "%25", "2024-03-01", "nodes", "edges", "shape", "0",
                         "input_type", "output_type", "weight", "input_shape", "w_in", "start_dim", "group", "name", "value", "self", "key",
-                        "data", "dtype", "\ufeffk", "members", "attrs", "file", "parent", "id", "ref"])
+                        "data", "dtype", "\ufeffk", "members", "attrs", "file", "parent", "id", "ref", "..", "...", "#tag", "#refs#", "{}",
+                        "a b", "%s"])
         r = rng.random()
         if r < 0.2:
             out[k] = rng.choice(["", "text", "日本語", "a\nb", "same", "NIRGraph", "spikes> ", " ", "    ", " lead", "tab\t", "trail \n",
@@ -67,7 +68,7 @@ def md_tree(rng, depth):
                                  "1_000", "[1, 2]", "{}", "%2F", "a%2Fb", "\\n", "b'x'",
                                  "\ufeffexported", "\ufeff", "mid\ufeffdle", "Linear", "Scale"])
         elif r < 0.35:
-            out[k] = rng.choice([0, 1, -7, 2 ** 40, 2 ** 63 - 1, -2 ** 63])
+            out[k] = rng.choice([0, 1, -7, 2 ** 40, 2 ** 63 - 1, -2 ** 63, 2 ** 63, 2 ** 64 - 1, 2 ** 63 + 12345])
         elif r < 0.5:
             out[k] = rng.choice(S.SPECIAL_F)
         elif r < 0.6:
